@@ -409,7 +409,13 @@ class Run:
             return None
         cli = SimSocket(self.net, target.family, _socket.SOCK_DGRAM, 0, f"cli{n}")
         self.net.bind(cli, (target.getsockname()[0], 0))
-        cli.sendto(request.encode(), target.getsockname())
+        # 1-3 datagrams from the same address: the later ones are queued behind the (possibly slow) handler of the first, so a
+        # shutdown issued meanwhile meets a client whose queue is not empty
+        burst = 1 + self.world.choose("udp.burst", 3)
+        if burst > 1:
+            self.world.probe("udp_client_burst")
+        for _ in range(burst):
+            cli.sendto(request.encode(), target.getsockname())
         deadline = self.world.now + CLIENT_WAIT
         while not cli.dgram_q and self.world.now < deadline:
             await asyncio.sleep(1 / 64.0)
